@@ -477,3 +477,9 @@ impl<T> From<Continuable> for Frame<T> {
         }
     }
 }
+
+#[cfg(feature = "verif")]
+#[allow(missing_docs, dead_code, unused_imports)]
+pub(crate) mod verif_h {
+    include!(concat!(env!("H2_VERIF_DIR"), "/harness/codec/framed_read.rs"));
+}
